@@ -1,6 +1,6 @@
 #!/bin/sh
 # usage: tools/trymut.sh <patch.diff> <Cxx> [more Cxx...]   — apply a seeded change to /repo, run the checks, undo it
 P=$1; shift
-git -C /repo apply "$P" || { echo "patch does not apply"; exit 2; }
+git -C /repo apply "$(realpath "$P")" || { echo "patch does not apply"; exit 2; }
 for c in "$@"; do ./check $c quick 2>&1 | grep -v "^note:" | cut -c1-400; done
 git -C /repo checkout -- . ; git -C /repo status --short | head -3
